@@ -523,3 +523,12 @@ func sameLabels(a, b map[string]bool) bool {
 	}
 	return true
 }
+
+// baseKey strips the "#variant" suffix of a contract key: several contracts may
+// be checked on the same function (callers use the unsuffixed one).
+func baseKey(k string) string {
+	if i := strings.LastIndex(k, "#"); i >= 0 && !strings.Contains(k[i:], "$") {
+		return k[:i]
+	}
+	return k
+}
